@@ -506,6 +506,7 @@ pub fn run(o: &mut Out, seed: u64, thorough: bool, replay: Option<Vec<String>>) 
     }
     sweep(o, &p, thorough);
     ephemeral_sweep(o, &p);
+    raw_amount_sweep(o, &p);
     let mut r = Rng::new(seed);
     // lock-dense spends (order of arrival of contradictory lock pairs) and the announcement budget around 1024
     for _ in 0..(if thorough { 20_000 } else { 2_000 }) {
@@ -537,10 +538,35 @@ pub fn run(o: &mut Out, seed: u64, thorough: bool, replay: Option<Vec<String>>) 
     }}
 }
 
+
+/// spend tuples whose OWN amount atom is not the canonical integer form (redundant zero, negative, too long):
+/// alone, and next to the same coin under its canonical encoding (two coin ids for one coin if accepted)
+pub fn raw_amount_sweep(o: &mut Out, p: &Pools) {
+    let raws: Vec<Vec<u8>> = vec![vec![0x00], vec![0x00, 0x01], vec![0x00, 0x7f], vec![0x00, 0x00, 0x80], vec![0x00, 0x7f, 0xff],
+        vec![0x00, 0x00, 0x7f], vec![0x00, 0x80], vec![0x7f], vec![0x80], vec![0xff], vec![0xff, 0x7f],
+        vec![0, 0xff, 0xff, 0xff, 0xff, 0xff, 0xff, 0xff, 0xff], vec![0, 0, 0xff, 0xff, 0xff, 0xff, 0xff, 0xff, 0xff, 0xff],
+        vec![1, 0, 0, 0, 0, 0, 0, 0, 0], vec![0, 1, 0, 0, 0, 0, 0, 0, 0], vec![0x00, 0x40, 0x00]];
+    for raw in &raws {
+        for with_conds in [false, true] {
+            let conds = if with_conds { vec![pair(at(&[51]), list(vec![at(&p.ids[2]), int(1)], nil())), pair(at(&[73]), list(vec![at(raw)], nil()))] } else { vec![] };
+            let one = list(vec![at(&p.ids[0]), at(&p.ids[1]), at(raw), list(conds.clone(), nil())], nil());
+            let v = raw.iter().fold(0u128, |a, b| (a << 8) | *b as u128);
+            let canon = list(vec![at(&p.ids[0]), at(&p.ids[1]), int(v.min(u64::MAX as u128) as u64), nil()], nil());
+            for flags in [F_DONT_VALIDATE, F_DONT_VALIDATE | F_NO_UNKNOWN | F_STRICT, F_DONT_VALIDATE | F_COST] {
+                for mempool in [false, true] {
+                    case(o, mempool, flags, 11_000_000_000, 0, &pair(list(vec![one.clone()], nil()), nil()));
+                    case(o, mempool, flags, 11_000_000_000, 0, &pair(list(vec![canon.clone(), one.clone()], nil()), nil()));
+                }
+            }
+        }
+    }
+}
+
 /// C02: value-flow biased bundles (many outputs, big amounts, fees near the excess)
 pub fn run_c02(o: &mut Out, seed: u64, thorough: bool, replay: Option<Vec<String>>) {
     if let Some(lines) = replay { for l in lines { replay_line(o, &l); } return; }
     let p = pools();
+    raw_amount_sweep(o, &p);
     let mut r = Rng::new(seed ^ 0xc02);
     let big: [u64; 10] = [0, 1, 0x7fff_ffff, 0xffff_ffff, 0x1_0000_0000, 0x7fff_ffff_ffff_ffff, 0x8000_0000_0000_0000, u64::MAX - 1, u64::MAX, 1000];
     let n = if thorough { 300_000 } else { 25_000 };
